@@ -263,7 +263,7 @@ def bases_first_premises(ctx, rep, rule):
               if call_name(c) == 'gather_layers']
     revs = []
     for n in go.nodes:
-        if n.kind == 'stmt':
+        if n.kind in ('stmt', 'for'):
             for c in calls_in(n.ast):
                 if isinstance(c.func, ast.Attribute) and c.func.attr == 'reverse':
                     revs.append(n.id)
